@@ -17,7 +17,8 @@
 //   gfdigest                    -> FNV-1a-64 over the whole gf_mul table then the gf_div table (b >= 1)
 //   fieldcheck                  -> ok            (the monitor judges the rows it has collected)
 //   eval <x> <c> <coeffs-hex>   -> xx            evaluate_polynomial
-//   split <secret-hex> <t> <n> <rng>  -> ok idx:value,idx:value,... | throw:... | timeout | crash:...
+//   split <secret-hex> <t> <n> <rng>  -> ok idx:value,idx:value,... draws=<k> | throw:... | timeout | crash:...
+//        (k = number of values the code took from std::random_device during this split)
 //        rng = z (all draws 0) | k<v> (all draws v) | r<seed> (xorshift stream); runs on a watched
 //        worker thread with a CPU-time limit (a hang is reported as `timeout`); the shares are remembered
 //   combsel <t> <p,p,...>       -> combine() on the remembered shares at those positions (0-based)
@@ -140,7 +141,7 @@ std::string do_split(const std::array<std::uint8_t, 32>& secret, std::uint8_t t,
         try {
             verif_rng::seed(job->rng);
             const auto shares = Shamir::split(job->secret, job->t, job->n);
-            line = "ok " + fmt_shares(shares);
+            line = "ok " + fmt_shares(shares) + " draws=" + std::to_string(verif_rng::draws);
         } catch (const std::exception& ex) {
             line = verif::exception_name(ex);
         }
@@ -215,7 +216,7 @@ int main(int argc, char** argv) {
             for (std::size_t i = 0; i < secret.size() && i < bytes.size(); ++i) secret[i] = bytes[i];
             last_shares.clear();
             std::string line = do_split(secret, byte_arg(t[2]), byte_arg(t[3]), t[4]);
-            if (line.rfind("ok ", 0) == 0) parse_shares(line.substr(3), last_shares);
+            if (line.rfind("ok ", 0) == 0) parse_shares(line.substr(3, line.find(' ', 3) - 3), last_shares);
             return line;
         }
         if (t[0] == "combsel" && t.size() == 3) {
